@@ -1,8 +1,31 @@
 //@include prelude/strstruct_header.rs
-// Unit scan_venv — property C14, second sentence (plugin discovery), + C11 (no panic), C12 (termination):
-//   src/fixtures/scanner.rs  TEXT functions (this file): parse_pytest11_entry_points (E1),
-//   resolve_entry_point_module_to_path (E2), extract_package_name_from_dist_info (E3),
-//   find_editable_pth_source_root (E4).
+// Unit scan_venv — property C14, second sentence ("Fixtures of installed plugins (pytest11 entry points, pytest's
+// built-ins, editable installs) are found, classified …, and never listed as project symbols"), TEXT level, + C11 (no
+// panic on untrusted text: entry_points.txt, *.pth, dist-info directory names), C12 (every loop terminates):
+//   src/fixtures/scanner.rs  parse_pytest11_entry_points (E1), resolve_entry_point_module_to_path (E2),
+//                            extract_package_name_from_dist_info (E3), find_editable_pth_source_root (E4).
+//   The database-writing half (scan_single_plugin_file … scan_venv_fixtures) is unit scan_venv2, which takes the four
+//   contracts proved here as //@stub callees.
+//   L1: result == operational spec (prelude/scanvenv_spec.rs): op_parse_pytest11 / op_resolve_ep / op_dist_name /
+//       op_pth_root (the .pth index is gone through in ITS iteration order hm_enum(idx); order-free reading: L2).
+//   L2: lemma_C14_* at the end of this file (section flag == "between [pytest11] and the next header", result == the
+//       accepted lines in order, completeness / soundness; module file / package / namespace package / bounded / rejections /
+//       :attr; dist-info name split; .pth order-free reading; facts about what is NOT found).
+//   C11: `name_version[i + 1..]`, `&name_version[..idx]`, `rest[1..]` are @wrapexpr_opt helpers that REQUIRE char
+//       boundaries inside the text (proved from the char_indices / strip_prefix contracts and lemma_dash_next: '-' is
+//       one byte); a changed slice expression is judged raw against vstd's own `str` index precondition.
+//   C12: the three `for` loops with `continue` are `loop`s (T12) with explicit `decreases`; the others are `for` loops
+//       over finite iterators.
+//   assumed: prelude/scanvenv_str.rs (T1..T10: str::lines / split_once / strip_suffix / strip_prefix / split(char) /
+//       char_indices / is_ascii_digit / Option::or_else / Option::is_some_and), prelude/scanvenv_fs.rs (V1..V6: &str as
+//       path, PathBuf::push, with_extension, is_dir, is_absolute, PathBuf::from; H1: iteration order hm_enum of the real
+//       std HashMap + axiom_pth_enum), prelude/strstruct_prims*.rs (P0..P16), prelude/scansel_shims.rs (canonicalize,
+//       read_to_string, unwrap_or …), path.rs / path_ext.rs; the @wrapexpr helpers below: vp_normalize
+//       (`replace(['-','.'],"_").to_lowercase()` = norm_v, uninterpreted), vp_fmt_* (four `format!` calls = concatenation),
+//       vp_has_ctl (`bytes().any(..)` = has_ctl_v, uninterpreted), vp_tail_starts_with_digit / vp_name_prefix /
+//       vp_rest_digit (str slicing, P13 convention).
+//   `#[verifier::spinoff_prover]` on every extracted function: each gets its own Z3 (the outcome must not depend on
+//       what was verified before it in the same solver session).
 use std::sync::atomic::Ordering;
 verus! {
 global size_of usize == 8;  // A6: 64-bit target
@@ -39,6 +62,7 @@ spec fn eps_v(s: Seq<Pytest11EntryPoint>) -> Seq<EpV> { s.map_values(|e: Pytest1
 
 impl FixtureDatabase {
 
+#[verifier::spinoff_prover]
 /*@ extract src/fixtures/scanner.rs parse_pytest11_entry_points
 @tags C14 C11 C12
 @ret r
@@ -66,6 +90,7 @@ impl FixtureDatabase {
     }
 @*/
 
+#[verifier::spinoff_prover]
 /*@ extract src/fixtures/scanner.rs resolve_entry_point_module_to_path
 @tags C14 C11 C12
 @ret r
@@ -100,6 +125,7 @@ impl FixtureDatabase {
         pbv(&path) == push_all(base, sv(parts@), itp.index@ as int),
 @*/
 
+#[verifier::spinoff_prover]
 /*@ extract src/fixtures/scanner.rs extract_package_name_from_dist_info
 @tags C14 C11 C12
 @ret r
@@ -120,10 +146,11 @@ impl FixtureDatabase {
         let j = choose|j: int| dd_found(nv, j, idx as int);
         lemma_dd_found(nv, j, idx as int);
     }
-@before name_version 5
+@before name_version -1
     proof { assert(dd_none(nv)); lemma_dd_none(nv); }
 @*/
 
+#[verifier::spinoff_prover]
 /*@ extract src/fixtures/scanner.rs find_editable_pth_source_root
 @tags C14 C11 C12
 @ret r
@@ -144,18 +171,18 @@ impl FixtureDatabase {
     let ghost cands = strs_v(candidates@);
     let ghost e = pairs_v(hm_enum(pth_index));
     let ghost mut i: int = 0;
-    proof { assert(cands =~= pth_cands(raw_name@, normalized_name@)); }
+    proof { reveal(pth_cands); assert(cands =~= pth_cands(raw_name@, normalized_name@)); }
 @forloop 1 it
-    proof { assert(i == e.len()); }
+    proof { assert(i == e.len()); lemma_pth_first_unfold(sp, cands, e, i); }
 @loop 1
     invariant 0 <= i <= e.len(), e == pairs_v(hm_enum(pth_index)), pairs_v(it.remaining()) =~= e.skip(i), it.obeys_prophetic_iter_laws(),
         sp == pv(site_packages), cands == strs_v(candidates@), cands == pth_cands(raw_name@, normalized_name@),
         pth_first(sp, cands, e, 0) == pth_first(sp, cands, e, i),
-    ensures i == e.len(),
+    ensures i == e.len(), pth_first(sp, cands, e, 0) is None,
     decreases e.len() - i
 @loopstart 1
     proof { assert(e.skip(i).drop_first() =~= e.skip(i + 1)); assert(e[i] == (stem@, pbv(pth_path))); i = i + 1; }
-    proof { assert(pth_first(sp, cands, e, i - 1) == (match pth_file_root(sp, cands, e[i - 1].0, e[i - 1].1) { Some(p) => Some(p), None => pth_first(sp, cands, e, i) })); }
+    proof { lemma_pth_first_unfold(sp, cands, e, i - 1); }
 @after matches 1
     proof {
         if matches {
@@ -174,21 +201,22 @@ impl FixtureDatabase {
     let ghost ls = lines_v(content@);
     let ghost mut j: int = 0;
 @forloop 2 it2
-    proof { assert(j == ls.len()); }
+    proof { assert(j == ls.len()); lemma_pth_lines_unfold(sp, ls, j); }
 @loop 2
     invariant 0 <= j <= ls.len(), ls == lines_v(content@), sv(it2.remaining()) =~= ls.skip(j), it2.obeys_prophetic_iter_laws(),
         sp == pv(site_packages), 0 < i <= e.len(), cands == pth_cands(raw_name@, normalized_name@), e == pairs_v(hm_enum(pth_index)),
         pth_first(sp, cands, e, 0) == (match pth_lines_root(sp, ls, 0) { Some(p) => Some(p), None => pth_first(sp, cands, e, i) }),
         pth_lines_root(sp, ls, 0) == pth_lines_root(sp, ls, j),
-    ensures j == ls.len(),
+    ensures j == ls.len(), pth_lines_root(sp, ls, 0) is None,
     decreases ls.len() - j
 @loopstart 2
     proof { assert(ls.skip(j).drop_first() =~= ls.skip(j + 1)); assert(line@ == ls[j]); j = j + 1; }
     let ghost t = trim_v(ls[j - 1]);
-    proof { assert(pth_lines_root(sp, ls, j - 1) == (if !line_skipped(t) && !line_invalid(t) && line_root(sp, t) is Some { line_root(sp, t) } else { pth_lines_root(sp, ls, j) })); }
+    proof { lemma_pth_lines_unfold(sp, ls, j - 1); }
 @*/
 
 // ---- exec vacuity canaries: the same real bodies with the REAL contracts and injected `assert(false)`; each must FAIL
+#[verifier::spinoff_prover]
 /*@ extract src/fixtures/scanner.rs resolve_entry_point_module_to_path
 @tags C14
 @as canary_exec_resolve
@@ -230,6 +258,7 @@ impl FixtureDatabase {
     assert(false);
 @*/
 
+#[verifier::spinoff_prover]
 /*@ extract src/fixtures/scanner.rs find_editable_pth_source_root
 @tags C14
 @as canary_exec_pth_root
@@ -251,18 +280,18 @@ impl FixtureDatabase {
     let ghost cands = strs_v(candidates@);
     let ghost e = pairs_v(hm_enum(pth_index));
     let ghost mut i: int = 0;
-    proof { assert(cands =~= pth_cands(raw_name@, normalized_name@)); }
+    proof { reveal(pth_cands); assert(cands =~= pth_cands(raw_name@, normalized_name@)); }
 @forloop 1 it
-    proof { assert(i == e.len()); }
+    proof { assert(i == e.len()); lemma_pth_first_unfold(sp, cands, e, i); }
 @loop 1
     invariant 0 <= i <= e.len(), e == pairs_v(hm_enum(pth_index)), pairs_v(it.remaining()) =~= e.skip(i), it.obeys_prophetic_iter_laws(),
         sp == pv(site_packages), cands == strs_v(candidates@), cands == pth_cands(raw_name@, normalized_name@),
         pth_first(sp, cands, e, 0) == pth_first(sp, cands, e, i),
-    ensures i == e.len(),
+    ensures i == e.len(), pth_first(sp, cands, e, 0) is None,
     decreases e.len() - i
 @loopstart 1
     proof { assert(e.skip(i).drop_first() =~= e.skip(i + 1)); assert(e[i] == (stem@, pbv(pth_path))); i = i + 1; }
-    proof { assert(pth_first(sp, cands, e, i - 1) == (match pth_file_root(sp, cands, e[i - 1].0, e[i - 1].1) { Some(p) => Some(p), None => pth_first(sp, cands, e, i) })); }
+    proof { lemma_pth_first_unfold(sp, cands, e, i - 1); }
 @after matches 1
     proof {
         if matches {
@@ -281,21 +310,19 @@ impl FixtureDatabase {
     let ghost ls = lines_v(content@);
     let ghost mut j: int = 0;
 @forloop 2 it2
-    proof { assert(j == ls.len()); }
+    proof { assert(j == ls.len()); lemma_pth_lines_unfold(sp, ls, j); }
 @loop 2
     invariant 0 <= j <= ls.len(), ls == lines_v(content@), sv(it2.remaining()) =~= ls.skip(j), it2.obeys_prophetic_iter_laws(),
         sp == pv(site_packages), 0 < i <= e.len(), cands == pth_cands(raw_name@, normalized_name@), e == pairs_v(hm_enum(pth_index)),
         pth_first(sp, cands, e, 0) == (match pth_lines_root(sp, ls, 0) { Some(p) => Some(p), None => pth_first(sp, cands, e, i) }),
         pth_lines_root(sp, ls, 0) == pth_lines_root(sp, ls, j),
-    ensures j == ls.len(),
+    ensures j == ls.len(), pth_lines_root(sp, ls, 0) is None,
     decreases ls.len() - j
 @loopstart 2
     proof { assert(ls.skip(j).drop_first() =~= ls.skip(j + 1)); assert(line@ == ls[j]); j = j + 1; }
     let ghost t = trim_v(ls[j - 1]);
-    proof { assert(pth_lines_root(sp, ls, j - 1) == (if !line_skipped(t) && !line_invalid(t) && line_root(sp, t) is Some { line_root(sp, t) } else { pth_lines_root(sp, ls, j) })); }
+    proof { lemma_pth_lines_unfold(sp, ls, j - 1); }
 @return 1
-    assert(false);
-@return tail
     assert(false);
 @*/
 
@@ -497,6 +524,23 @@ pub proof fn lemma_C14_fact_namespace_package_not_resolved(base: PV, m: Seq<char
 {
     lemma_candidates(base, m);
 }
+//@tags C14
+/// NOT found (fact): the module text is everything before the first ':' taken VERBATIM — it is not trimmed and an
+/// `[extras]` suffix is not removed.  `foo = pytest_foo [cov]` and `foo = pytest_foo : obj` look for the file
+/// `pytest_foo [cov].py` / `pytest_foo .py`; importlib.metadata reads both as module `pytest_foo`
+pub proof fn lemma_C14_fact_module_text_taken_verbatim(base: PV, m: Seq<char>)
+    requires !m.contains(':'), !m.contains('.'), plain_name(m), !bad_part(m),
+        !fs_exists(base.push(m + seq!['.'] + "py"@)), !fs_exists(base.push(m).push(init_py())),
+    ensures op_resolve_ep(base, m) is None,
+{
+    lemma_split_def_none(m, ':');
+    lemma_split_def_none(m, '.');
+    assert(ep_parts(m) == seq![m]);
+    assert(seq![m].drop_last() =~= Seq::<Seq<char>>::empty());
+    assert(py_candidate(base, seq![m]) =~= base.push(m + seq!['.'] + "py"@));
+    assert(init_candidate(base, seq![m]) =~= base.push(m).push(init_py()));
+    lemma_C14_fact_namespace_package_not_resolved(base, m);
+}
 //@tags C14 C11
 /// whatever resolves lies (canonically) under the canonical base directory: path traversal cannot leave it
 pub proof fn lemma_C14_resolved_is_bounded(base: PV, m: Seq<char>)
@@ -566,6 +610,7 @@ proof fn lemma_pth_first(sp: PV, cands: Seq<Seq<char>>, e: Seq<(Seq<char>, PV)>,
         None => forall|i: int| k <= i < e.len() ==> pth_file_root(sp, cands, (#[trigger] e[i]).0, e[i].1) is None },
     decreases e.len() - k,
 {
+    lemma_pth_first_unfold(sp, cands, e, k);
     if k < e.len() {
         if pth_file_root(sp, cands, e[k].0, e[k].1) is None { lemma_pth_first(sp, cands, e, k + 1); }
     }
@@ -603,6 +648,7 @@ pub proof fn lemma_C14_fact_import_hook_pth_has_no_root(sp: PV, ls: Seq<Seq<char
     ensures pth_lines_root(sp, ls, k) is None,
     decreases ls.len() - k,
 {
+    lemma_pth_lines_unfold(sp, ls, k);
     if k < ls.len() { assert(line_skipped(trim_v(ls[k]))); lemma_C14_fact_import_hook_pth_has_no_root(sp, ls, k + 1); }
 }
 
@@ -633,7 +679,7 @@ proof fn canary_every_stem_matches(stem: Seq<char>, c: Seq<char>) ensures stem_m
 /// an `import` line is a path line
 proof fn canary_import_line_is_path(sp: PV, ls: Seq<Seq<char>>)
     requires ls.len() == 1, occurs_at(trim_v(ls[0]), st("import "@), 0), line_root(sp, trim_v(ls[0])) is Some
-    ensures pth_lines_root(sp, ls, 0) is Some {}
+    ensures pth_lines_root(sp, ls, 0) is Some { lemma_pth_lines_unfold(sp, ls, 0); lemma_pth_lines_unfold(sp, ls, 1); }
 /// the assumed primitives are contradictory
 proof fn canary_prims_inconsistent(s: &str) ensures false { lemma_fits(s); axiom_pth_enum(&arbitrary::<PthIndex>()); }
 
